@@ -62,6 +62,7 @@ class Event:
         self.value: Optional[Term] = extra.get("value")   # stored value
         self.inlined = False
         self.seq = -1
+        self.stmt_id = ctx.stmt_id
 
     @property
     def cond(self) -> Term:
@@ -95,6 +96,7 @@ class Ctx:
         self.withs: List[Term] = []
         self.chain: Tuple[Tuple[str, int], ...] = ()
         self.depth = depth
+        self.stmt_id = 0
 
     def child(self, fi: FuncInfo, scope: Scope, line: int) -> "Ctx":
         c = Ctx(fi, scope, self.depth + 1)
@@ -113,6 +115,8 @@ class Summary:
         self.norm = norm
         self.scope = scope
         self.unknown = unknown     # constructs the walker did not model (analysis left the fragment)
+        self.tests: Dict[int, Term] = {}    # id(If/While node) -> normalised test
+        self.iters: Dict[int, Term] = {}    # id(For node) -> normalised iteration domain
 
     def of_kind(self, *kinds: str) -> List[Event]:
         return [e for e in self.events if e.kind in kinds]
@@ -241,6 +245,8 @@ class _Run:
         self.cur: Ctx
         self._loop_n = 0
         self._new_n = 0
+        self.tests: Dict[int, Term] = {}
+        self.iters: Dict[int, Term] = {}
 
     # ------------------------------------------------------------------ set-up
     def run(self) -> Summary:
@@ -250,7 +256,10 @@ class _Run:
         self.block(func_body(fi))
         for i, e in enumerate(self.events):
             e.seq = i
-        return Summary(fi, self.events, self.norm, scope, self.unknown)
+        sm = Summary(fi, self.events, self.norm, scope, self.unknown)
+        sm.tests = self.tests
+        sm.iters = self.iters
+        return sm
 
     def param_scope(self, fi: FuncInfo, outer: Optional[Scope]) -> Scope:
         scope = Scope(fi.module, fi, outer=outer)
@@ -425,6 +434,7 @@ class _Run:
         return out
 
     def stmt(self, st: ast.stmt) -> Set[str]:
+        self.cur.stmt_id = id(st)
         m = getattr(self, "s_" + type(st).__name__, None)
         if m is None:
             self.unknown.append("%s:%d %s" % (self.cur.fi.module.path, st.lineno, type(st).__name__))
@@ -575,6 +585,7 @@ class _Run:
     def s_If(self, st: ast.If) -> Set[str]:
         ctx = self.cur
         cond = self.N(st.test)
+        self.tests[id(st)] = cond
         base_env = dict(ctx.scope.env)
         base_pc = list(ctx.pc)
         # true branch
@@ -630,6 +641,7 @@ class _Run:
         ctx = self.cur
         it = self.N(st.iter)
         dom, _roles = self.norm.iter_domain(it)
+        self.iters[id(st)] = dom
         names = assigned_names(st.body) | assigned_names([ast.Assign(targets=[st.target], value=ast.Constant(0), lineno=st.lineno)])
         accs = self._accumulators(st.body)
         pre = dict(ctx.scope.env)
@@ -677,7 +689,9 @@ class _Run:
         ctx = self.cur
         names = assigned_names(st.body)
         self._havoc(names)
+        self.cur.stmt_id = id(st)
         cond = self.N(st.test)
+        self.tests[id(st)] = cond
         base_pc = list(ctx.pc)
         ctx.loops.append(("while", cond, contains_jump(st.body, (ast.Break, ast.Return))))
         if cond != C(True):
